@@ -138,6 +138,9 @@ var bgNames = []string{"b1", "b2", "srv", "X_9"}
 // execFgLine: a foreground exec whose status is as the line demands (good) or not (bad).
 func (g *gen) execFgLine(good bool) gline {
 	s := g.st
+	if g.fl.mainCmd && g.chance(75) { // the Main-command lane (lanes.go)
+		return g.execMainLine(good)
+	}
 	if g.chance(12) { // a program that is not on PATH: a start error, stdin is kept
 		text := "exec nosuchprog-zz" + g.pick([]string{"", " a", " out:x"})
 		if good {
